@@ -1,7 +1,7 @@
 (* C06 bridge: what the translator regenerated from _functions.py on this run (Gen.v) is the
    hand-written textbook model, for all arguments. *)
 From Coq Require Import QArith Qabs List Bool ZArith.
-Require Import SkV.C06.Model SkV.C06.Gen.
+Require Import SkV.C06.Model SkV.C06.Gen SkV.C06.Wrap SkV.C06.GenWrap.
 Import ListNotations.
 Open Scope Q_scope.
 
@@ -21,3 +21,10 @@ Proof. intros n o. destruct n; reflexivity. Qed.
 
 Theorem gen_defaults_eq : forall n, gen_defaults n = documented_defaults n.
 Proof. intros n. destruct n; reflexivity. Qed.
+
+(* the regenerated class table covers the 18 functions, each class wrapping the function whose
+   signature was extracted for it *)
+Theorem gen_wrappers_cover :
+  length gen_wrappers = 18%nat /\
+  forallb (fun ws => String.eqb (w_func (fst ws)) (s_name (snd ws))) gen_wrappers = true.
+Proof. split; vm_compute; reflexivity. Qed.
